@@ -120,6 +120,10 @@ func init() {
 	"slices.SortFunc":         extSlicesSortFunc,
 	"slices.Sort":             extSlicesSortFunc,
 	"cmp.Compare":             extCmpCompare,
+	"maps.Keys":               extMapsKeys,
+	"slices.Sorted":           extSlicesSorted,
+	"(encoding/binary.littleEndian).PutUint32": extPutUint(4),
+	"(encoding/binary.littleEndian).PutUint64": extPutUint(8),
 	"math/rand.NewSource":     extNonNil,
 	"math/rand.New":           extNonNilPtr,
 	"(*math/rand.Rand).Int":   extNonNegInt,
@@ -194,7 +198,14 @@ func findIfaceExtern(t types.Type, m *types.Func) ifaceExternFn {
 		// on a non-nil receiver, unspecified results
 		return func(e *Env, fr *Frame, recv *Iface, m *types.Func, args []Value, rt types.Type, st *State) Value {
 			e.panicCheck(fr, "nil", st, mkNot(mkEq(recv.T, "0")))
-			e.trust("hash.Hash." + m.Name() + ": digest state not modelled (no effect on modelled state)")
+			e.trust("hash.Hash." + m.Name() + ": digest state not modelled (Write has no effect on modelled state; Sum into a view of a local byte array makes that array arbitrary)")
+			if m.Name() == "Sum" && len(args) == 1 {
+				if b, ok := args[0].(*Slice); ok {
+					if vo, isView := e.arrayViewAt[b.Arr]; isView && !fr.pure {
+						e.store(st, vo.ptr, e.freshValue(vo.ptr.pointee(), "digest"))
+					}
+				}
+			}
 			if noResult(rt) {
 				return nil
 			}
@@ -272,6 +283,61 @@ func extSlicesClone(e *Env, fr *Frame, fn *ssa.Function, args []Value, rt types.
 	e.assume(mkAnd(sx(">=", cp, s.Len), sx("<=", cp, "281474976710656")))
 	isNil := mkEq(s.Arr, "0")
 	return &Slice{Arr: mkIte(isNil, "0", r), Off: "0", Len: s.Len, Cap: mkIte(isNil, "0", cp), Typ: rt}
+}
+
+// maps.Keys(m) is only supported as the argument of slices.Sorted: the value is the map.
+type SeqV struct {
+	m   *MapV
+	typ types.Type
+}
+
+func (s *SeqV) vtype() types.Type { return s.typ }
+
+func extMapsKeys(e *Env, fr *Frame, fn *ssa.Function, args []Value, rt types.Type, st *State) Value {
+	m, ok := args[0].(*MapV)
+	if !ok {
+		unsupp("maps.Keys of %T", args[0])
+	}
+	return &SeqV{m: m, typ: rt}
+}
+
+// slices.Sorted(maps.Keys(m)) for integer keys: a fresh slice holding exactly the keys of m,
+// each once, in strictly ascending order.
+func extSlicesSorted(e *Env, fr *Frame, fn *ssa.Function, args []Value, rt types.Type, st *State) Value {
+	sq, ok := args[0].(*SeqV)
+	if !ok {
+		unsupp("slices.Sorted of a sequence other than maps.Keys(m)")
+	}
+	mt := sq.m.Typ.Underlying().(*types.Map)
+	et := rt.Underlying().(*types.Slice).Elem()
+	names, sorts, leaves := e.elemArrays(et)
+	if len(names) != 1 || leaves[0].Sort != sInt {
+		unsupp("slices.Sorted(maps.Keys(m)) for non-integer keys")
+	}
+	e.trust("slices.Sorted(maps.Keys(m)): exactly the keys of m, each once, strictly ascending")
+	dn, _, ks := e.mapNames(mt)
+	dom := mkSelect(e.heapGet(st, dn, heapSort("M", sBool, ks)), sq.m.Ref)
+	n := e.mapLen(st, sq.m)
+	r := e.alloc(st)
+	inner := "(Array Int " + sInt + ")"
+	ni := e.fresh("sortedkeys", inner)
+	e.counter++
+	pos := q(fmt.Sprintf("keypos!%d", e.counter))
+	e.sess.Cmd("(declare-fun " + pos + " (Int) Int)")
+	i, j, k := "|$i|", "|$j|", "|$k|"
+	isNil := mkEq(sq.m.Ref, "0")
+	e.assume(fmt.Sprintf("(forall ((%s Int)) (! (=> (and (<= 0 %s) (< %s %s)) (and (not %s) (select %s (select %s %s)) %s)) :pattern ((select %s %s))))",
+		i, i, i, n, isNil, dom, ni, i, e.typeRange(mkSelect(ni, i), et), ni, i))
+	e.assume(fmt.Sprintf("(forall ((%s Int) (%s Int)) (! (=> (and (<= 0 %s) (< %s %s) (< %s %s)) (< (select %s %s) (select %s %s))) :pattern ((select %s %s) (select %s %s))))",
+		i, j, i, i, j, j, n, ni, i, ni, j, ni, i, ni, j))
+	e.assume(fmt.Sprintf("(forall ((%s Int)) (! (=> (and (not %s) (select %s %s)) (and (<= 0 (%s %s)) (< (%s %s) %s) (= (select %s (%s %s)) %s))) :pattern ((select %s %s))))",
+		k, isNil, dom, k, pos, k, pos, k, n, ni, pos, k, k, dom, k))
+	arr := e.heapGet(st, names[0], sorts[0])
+	e.heapSet(st, names[0], sorts[0], e.maybeName(mkStore(arr, r, ni), sorts[0]))
+	e.noteWrite(names[0], r)
+	cp := e.fresh("sortedcap", sInt)
+	e.assume(mkAnd(sx(">=", cp, n), sx("<=", cp, "281474976710656")))
+	return &Slice{Arr: r, Off: "0", Len: n, Cap: cp, Typ: rt}
 }
 
 // cmp.Compare on integers: -1, 0, +1.
